@@ -38,7 +38,7 @@ ASSUME = ['numpy trusted; physical constant AMU taken from taurex.constants',
 
 FILLS = [['H2', 'He'], ['H2'], ['H2', 'He', 'N2'], ['N2', 'H2', 'He', 'CO2']]
 RATIOS = {'std': [0.17, 0.05, 0.02], 'one': [1.0, 1.0, 1.0], 'tiny': [1e-12, 1e-12, 1e-12],
-          'mixed': [0.1, 0.5, 2.0], 'float': [0.17, 0.05, 0.02]}
+          'mixed': [0.1, 0.5, 2.0], 'float': [0.17, 0.05, 0.02], 'int': [1, 2, 1]}
 SLOTS = ['H2O', 'CH4', 'CO', 'Na']
 GAS_LETTERS = ['-', 'c:1e-3', 'c:0.5', 'c:0.25', 'c:0.3', 'c:1e-12', 'c:0.500000000001',
                'tp:0.3>1e-6', 'tp:0.3>0.6', 'tp:0.6>0.3', 'arr', 'pow', 'tl']
@@ -374,7 +374,7 @@ def mix_cases(tier):
     thorough = tier == 'thorough'
     dims = {}
     dims['fill'] = list(range(len(FILLS)))
-    dims['ratio'] = ['std', 'one', 'tiny', 'mixed', 'float']
+    dims['ratio'] = ['std', 'one', 'tiny', 'mixed', 'float', 'int']
     for i, m in enumerate(SLOTS):
         # default letter of the first two slots is a real gas, so that the default case is a mixture
         letters = list(GAS_LETTERS)
@@ -436,7 +436,8 @@ def hist_build(case):
         m.build()
         return m
     return fx.build_model({'kind': 'transmission', 'N': case['N'], 'T': ['iso', 1200.0],
-                           'fill': [['H2', 'He', 'N2'], [0.17, 0.01]],
+                           # 'intratio': the ratios are given as whole Python numbers (a list of ints)
+                           'fill': [['H2', 'He', 'N2'], [1, 2] if case.get('intratio') else [0.17, 0.01]],
                            'gases': [['H2O', ['const', 1e-4]], ['CH4', ['const', 1e-6]], ['CO', ['const', 1e-3]]],
                            'contribs': ['abs']})
 
@@ -545,5 +546,6 @@ def explore(ctx):
         ns_ = [3]
     hcases = [{'N': n, 'hist': h} for n in ns_ for h in hs]
     hcases += [{'N': 3, 'hist': h, 'defaults': True} for h in hs if all(o[0] != 'N2_H2' for o in h) and len(h) <= 2]
+    hcases += [{'N': 3, 'hist': h, 'intratio': True} for h in hs if len(h) <= 2]
     ctx.bounds.update(histories=len(hcases), history_depth=3 if ctx.tier == 'thorough' else 2)
     ctx.run_cases('hist_fn', hcases, phase='histories')
